@@ -19,7 +19,7 @@ def run_variant(chk, variant, n, depth, width):
             f"{cmd} R 0 0 0 R 1 1 0 R 0 2 1 R 1 3 1 T I 0 1 n C 0 1 1 n I 1 2 n C 1 2 2 n E E E C 2 3 3 n E E",
             f"{cmd} R 0 0 3 R 0 0 2 R 0 0 1 T I 0 9 n C 2 4 40 n E E"]
     ops = list(dict.fromkeys(ops))
-    core.differential(chk, ops, binp, cc.oracle_c12, label=f"call trees ({variant})")
+    core.differential(chk, ops, binp, cc.oracle_c12, label=f"call trees ({variant})", impl_env=cc.env_for(variant))
     return ops
 
 
@@ -27,7 +27,7 @@ def run(chk):
     thorough = chk.tier == "thorough"
     chk.lean(thorough_checker=thorough)
     allops = []
-    for variant in ("vsbx", "noop", "noop_tls"):
+    for variant in ("vsbx", "noop", "noop_tls", "dylib", "dylib_tls"):
         allops += run_variant(chk, variant, 4000 if thorough else 700, 4, 3)
     chk.cov["distinct_nontrivial"] = len(set(allops))
     lens = [len(o.split()) for o in allops]
@@ -35,10 +35,10 @@ def run(chk):
                                      "with_callbacks": sum(1 for o in allops if " C " in o), "with_fault": sum(1 for o in allops if any(f" {x} " in o for x in "abr"))}
     chk.cov["rule"] = ("random registration/unregistration histories (4 callbacks with identical signatures, 6 owner variables, overwrites, slot reuse) followed by random call trees "
                        "(depth <= 4, width <= 3, nesting across 2 live sandboxes, boundary argument/result values, faults at argument conversion / callback body / result conversion) on "
-                       "{foreign-ABI vsbx, noop, noop with embedder-provided TLS}; oracle: the function registered for the entry point on the executing sandbox runs, once, with that sandbox "
+                       "{foreign-ABI vsbx, noop, noop with embedder-provided TLS, dylib (guest functions in a dlopen'ed shared object), dylib with embedder-provided TLS}; oracle: the function registered for the entry point on the executing sandbox runs, once, with that sandbox "
                        "and the guest's argument, and its result reaches the guest unless a fault struck")
     chk.add_samples([{"tree": o} for o in allops[:3]])
-    chk.cov["trusted_base"] += ["C12: the dylib backend is not executed here; its callback code is the same text as the noop backend's (checked by the facts extractor: Generated.dylibCallbackCodeSameAsNoop)",
+    chk.cov["trusted_base"] += ["C12: the dylib backend is executed with a guest library whose functions forward to the harness (harness/guest_calls.cpp); dlopen/dlsym are exercised, the symbol-visibility rules of real libraries are not",
                                 "argument values are long/int32 only in this engine; conversions of all types on callback paths are covered by C06 (cbarg/cbret ops)"]
 
 
